@@ -222,6 +222,8 @@ def observe(ob, ref, cs):
     """Value the account on a COPY of the broker and compare every observable the
     statements of C01 and C05 name.  Returns list of (property, message)."""
     problems = []
+    margined_open = any(c.margin_requirement > 0 and ref.qty(c) != 0 for c in cs)
+    pre = snap(ob) if margined_open else None      # the state BEFORE any valuation, for reports asked first (see below)
     try:
         got = ob.net_liquidation_value(False)
     except Exception as ex:  # valuation must not fail with full quotes
@@ -261,6 +263,16 @@ def observe(ob, ref, cs):
                 if not fclose(w.get(c, 0.0), expw):
                     problems.append(("C05", "weight of %s reported %r, expected q*liq*mult/NLV = %r"
                                      % (c.symbol, w.get(c, 0.0), float(expw))))
+            # the cash entry, and the same report when holdings_weights() is the FIRST valuation after the last quote
+            cash_w = Fr(float(hq.get(ob.base_currency, 0.0))) / Fr(got)
+            if not fclose(w.get(ob.base_currency, 0.0), cash_w):
+                problems.append(("C05", "weight of cash reported %r, expected cash/NLV = %r" % (w.get(ob.base_currency, 0.0), float(cash_w))))
+            if pre is not None:
+                w1 = unsnap(pre).holdings_weights()
+                for c in list(cs) + [ob.base_currency]:
+                    if not fclose(w1.get(c, 0.0), w.get(c, 0.0)):
+                        problems.append(("C05", "holdings_weights() asked before any other valuation reports %r for %s, after a valuation %r"
+                                         % (w1.get(c, 0.0), getattr(c, "symbol", c), w.get(c, 0.0))))
             nv = ob.holdings_values()
             for c in cs:
                 q = ref.qty(c)
